@@ -100,8 +100,10 @@ def z_factor_DAK(
             0.721,
         ]
     )
-    temp_reduced = (temperature + 459.67) / (temperature_pseudocritical + 459.67)
-    pressure_reduced = pressure / pressure_pseudocritical
+    # solve in double precision whatever the precision of the inputs: with float32 pressures the
+    # residual is only good to 1e-7 and the root search cannot reach its tolerance
+    temp_reduced = np.float64(temperature + 459.67) / (temperature_pseudocritical + 459.67)
+    pressure_reduced = np.float64(pressure) / pressure_pseudocritical
     C = np.zeros(5)  # Taylor series expansion
     C[0] = (
         A[0] * A[1] / temp_reduced
